@@ -1,4 +1,6 @@
 import AmVerif.Model.Graph
+import AmVerif.Model.Leb128
+import AmVerif.Generated.Consts
 /-
   Local editing calls (transaction/inner.rs) at the level of the op set: which operations a call
   appends to the open transaction — pred selection, reference element, ids — and which calls fail.
@@ -214,5 +216,61 @@ def Doc.localDeps (d : Doc) (actor : Bytes) : List Hash :=
   match (d.applied.filter (fun c => c.actor == actor)).getLast? with
   | some last => if hs.contains last.hash then hs else hs ++ [last.hash]
   | none => hs
+
+/-! ### string migration (`convert_scalar_strings_to_text`, automerge.rs) -/
+
+/-- every object of the op set in `iter_objs` order: root, then make ops ascending by id -/
+def allObjects (ops : List Op) : List (ObjId × ObjType) :=
+  (ObjId.root, ObjType.map) ::
+    (sortById (ops.filter (fun o => match o.action with | .make _ => true | _ => false))).filterMap
+      (fun o => match o.action with | .make t => some (ObjId.id o.id, t) | _ => none)
+
+/-- the conversions collected by the first loop: (object, property, string) for every VISIBLE string
+    op of every map / list object — reachable from the root or not -/
+def conversions (ops : List Op) : List (ObjId × Sum Bytes Nat × Bytes) :=
+  (allObjects ops).flatMap (fun (obj, ty) =>
+    match ty with
+    | .map =>
+      (mapKeys ops obj).flatMap (fun k =>
+        (mapRegOps ops obj k).filterMap (fun o =>
+          match o.action with | .put (.str s) => some (obj, Sum.inl k, s) | _ => none))
+    | .list =>
+      ((seqRegs ops obj).zipIdx).flatMap (fun (p : (OpId × List Op) × Nat) =>
+        p.1.2.filterMap (fun o =>
+          match o.action with | .put (.str s) => some (obj, Sum.inr p.2, s) | _ => none))
+    | _ => [])
+
+/-- the second loop: one transaction of `put_object(Text)` + `splice_text(0, 0, s)` per conversion -/
+def applyConversions (e : Enc) (ops : List Op) (t : Tx) :
+    List (ObjId × Sum Bytes Nat × Bytes) → Except EditErr Tx
+  | [] => .ok t
+  | (obj, prop, s) :: rest =>
+    match localPut e (ops ++ t.pending) t obj prop (.make .text) true with
+    | .error err => .error err
+    | .ok newOps =>
+      let t1 : Tx := { t with pending := t.pending ++ newOps }
+      match newOps.head? with
+      | none => .error .other
+      | some mk =>
+        match localSpliceText e (ops ++ t1.pending) t1 (.id mk.id) 0 0 s with
+        | .error err => .error err
+        | .ok more => applyConversions e ops { t1 with pending := t1.pending ++ more } rest
+
+/-- `ActorId::with_concurrency(level)` -/
+def withConcurrency (base : Bytes) (level : Nat) : Bytes :=
+  Consts.CONCURRENCY_MAGIC_BYTES ++ Leb.ulebEncode level ++ base
+
+/-- `isolate_actor`: the first of base, with_concurrency(1), with_concurrency(2), … whose last
+    applied change (if any) is an ancestor of `heads` -/
+def isolateActorLoop (d : Doc) (base : Bytes) (anc : List Hash) : Nat → Nat → Bytes
+  | 0, level => if level == 0 then base else withConcurrency base level
+  | fuel + 1, level =>
+    let a := if level == 0 then base else withConcurrency base level
+    match (d.applied.filter (fun c => c.actor == a)).getLast? with
+    | none => a
+    | some last => if anc.contains last.hash then a else isolateActorLoop d base anc fuel (level + 1)
+
+def Doc.isolateActor (d : Doc) (base : Bytes) (heads : List Hash) : Bytes :=
+  isolateActorLoop d base (d.ancestors heads) (d.applied.length + 1) 0
 
 end AmVerif.Crdt
